@@ -481,7 +481,13 @@ class _Points:
                 raise Untranslatable('two different centre expressions')
             return [(0, 0), (1, 0)]
         if isinstance(e, (ast.Tuple, ast.List)):
-            return [self._elem(el) for el in e.elts]
+            out = []
+            for el in e.elts:          # `(c[0] - 1, *c[1:])`: a starred element splices a (slice of a) tuple in
+                if isinstance(el, ast.Starred):
+                    out += self._tuple(el.value)
+                else:
+                    out.append(self._elem(el))
+            return out
         if isinstance(e, ast.BinOp) and isinstance(e.op, ast.Add):
             return self._tuple(e.left) + self._tuple(e.right)
         if isinstance(e, ast.Subscript) and isinstance(e.slice, ast.Slice) and e.slice.step is None:
@@ -1176,9 +1182,13 @@ def generate(repo):
     g.item('bandlimited_rms.steps1d', 'prysm/interferogram.py:bandlimited_rms', lambda: get_def(ifm, 'bandlimited_rms'),
            brms_steps_1d, 'def brmsCentre1D (s : Int) : Int := s / 2\ndef brmsStepLag1D : Int := -1')
 
+    _LOCAL_FN_ALIASES = {}
+
     def _rms_callee_ok(f):
         """does the callee expression denote prysm.util.rms inside render_synthetic_surface (where the parameter `rms`
         shadows the module-level name)?  True / False (recognisably something else) / None"""
+        if isinstance(f, ast.Name) and f.id in _LOCAL_FN_ALIASES and f.id != 'rms':
+            return _rms_callee_ok(_LOCAL_FN_ALIASES[f.id])     # `rms_fcn = globals()['rms']` in the same function
         t = ast.unparse(f).replace('"', "'").replace(' ', '')
         if t == "globals()['rms']":
             target = 'rms'
@@ -1213,6 +1223,14 @@ def generate(repo):
         """the statement that rescales z, as an expression over z, the requested `rms` and ZRMS__ (= util.rms(z), wherever that
         call sits: in a local of any name or inline), plus the AST nodes involved -> (expr, scale statement, [rms call nodes])"""
         st = _stmts(fn)
+        _LOCAL_FN_ALIASES.clear()
+        for x in st:      # single-assignment locals bound to a callee expression (a name or globals()['name'])
+            if isinstance(x, ast.Assign) and len(x.targets) == 1 and isinstance(x.targets[0], ast.Name) \
+                    and (isinstance(x.value, ast.Name) or ast.unparse(x.value).replace(' ', '').startswith('globals()[')):
+                nm = x.targets[0].id
+                if sum(1 for y in st if isinstance(y, (ast.Assign, ast.AugAssign)) and nm in
+                       [ast.unparse(t_) for t_ in (y.targets if isinstance(y, ast.Assign) else [y.target])]) == 1:
+                    _LOCAL_FN_ALIASES[nm] = x.value
         aug = [x for x in st if isinstance(x, ast.AugAssign) and ast.unparse(x.target) == 'z'] + \
               [x for x in st if isinstance(x, ast.Assign) and ast.unparse(x.targets[0]) == 'z' and isinstance(x.value, ast.BinOp)
                and 'z' in (ast.unparse(x.value.left), ast.unparse(x.value.right))]
@@ -1506,6 +1524,84 @@ def generate(repo):
         return True
     g.fact('interferogramSpectralMethodsStateless', 'prysm/interferogram.py:Interferogram.{psd,bandlimited_rms,total_integrated_scatter}',
            spectral_stateless)
+
+    # ---- no shared mutable results: a helper of fttools / coordinates / mathops-level modules whose return value a caller in
+    #      interferogram.py writes into IN PLACE must not be memoised (and a memoised helper's result must not be written into)
+    def results_not_shared():
+        helpers = {}
+        for mod in (ftm, crd):
+            for n in mod.body:
+                if isinstance(n, ast.FunctionDef):
+                    helpers[n.name] = n
+        imported = set()
+        for n in ifm.body:
+            if isinstance(n, ast.ImportFrom) and n.level == 1 and n.module in ('fttools', 'coordinates'):
+                imported |= {a.asname or a.name for a in n.names}
+
+        def memoised(fn):
+            """True / False / None (a decorator this reader does not know)"""
+            res = False
+            for d in fn.decorator_list:
+                t = ast.unparse(d.func if isinstance(d, ast.Call) else d).split('.')[-1].lower()
+                if 'cache' in t or 'memo' in t:
+                    res = True
+                elif res is False:
+                    res = None
+            return res
+
+        def written_results(fn):
+            """names of helpers whose result is bound to a local of fn that is later written into in place"""
+            bound = {}        # local -> helper
+            hit = set()
+            for st in ast.walk(fn):
+                if isinstance(st, ast.Assign) and isinstance(st.value, ast.Call) and isinstance(st.value.func, ast.Name) \
+                        and st.value.func.id in imported and st.value.func.id in helpers:
+                    for t in st.targets:
+                        for e in (t.elts if isinstance(t, (ast.Tuple, ast.List)) else [t]):
+                            if isinstance(e, ast.Name):
+                                bound[e.id] = st.value.func.id
+            changed = True
+            while changed:        # plain aliases `a = b`
+                changed = False
+                for st in ast.walk(fn):
+                    if isinstance(st, ast.Assign) and isinstance(st.value, ast.Name) and st.value.id in bound:
+                        for t in st.targets:
+                            if isinstance(t, ast.Name) and t.id not in bound:
+                                bound[t.id] = bound[st.value.id]
+                                changed = True
+            for st in ast.walk(fn):
+                tg = []
+                if isinstance(st, ast.Assign):
+                    tg = st.targets
+                elif isinstance(st, ast.AugAssign):
+                    tg = [st.target]
+                for t in tg:
+                    base = t.value if isinstance(t, ast.Subscript) else (t if isinstance(st, ast.AugAssign) else None)
+                    if isinstance(base, ast.Name) and base.id in bound:
+                        hit.add(bound[base.id])
+                if isinstance(st, ast.Call):
+                    for k in st.keywords:
+                        if k.arg == 'out' and isinstance(k.value, ast.Name) and k.value.id in bound:
+                            hit.add(bound[k.value.id])
+                    if isinstance(st.func, ast.Attribute) and st.func.attr in ('fill', 'sort', 'put', 'itemset', 'resize') \
+                            and isinstance(st.func.value, ast.Name) and st.func.value.id in bound:
+                        hit.add(bound[st.func.value.id])
+            return hit
+
+        written = set()
+        for n in ast.walk(ifm):
+            if isinstance(n, ast.FunctionDef):
+                written |= written_results(n)
+        verdict = True
+        for name, fn in helpers.items():
+            mz = memoised(fn)
+            if mz is True and name in written:
+                return False            # recognised and wrong: the cached object is shared by every later caller
+            if mz is None and name in written:
+                verdict = None
+        return verdict
+    g.fact('helperResultsWrittenInPlaceAreNotMemoised', 'prysm/fttools.py, prysm/coordinates.py: decorators; prysm/interferogram.py: in-place writes',
+           results_not_shared)
 
     return g.finish()
 
